@@ -32,6 +32,7 @@ import threading
 import time as _time
 from pathlib import Path
 
+import common
 import jadeenv
 from jadeenv import jname, jid
 
@@ -327,7 +328,7 @@ class VCluster:
                 return float(vc.clock)
 
         for m in (rc, hs, jq, jr, cj, rj, cl, ra, acc, js):
-            patch(m, "time", FakeTime)
+            patch(m, "time", common.dual_time(FakeTime))
         patch(socket, "gethostname", lambda: vc.cur().host if getattr(_tls, "pid", None) in vc.procs else "harness")
 
         class Sub:
